@@ -45,7 +45,8 @@ func bbVariants() []bbVariant {
 		{name: "p_bool_tag", pk: []string{"kt", "kb"}, ddl: "WITH ENGINETYPE = columnstore PRIMARYKEY kt,kb", kind: "pk:bool,tag"},
 		{name: "p_tag_time", pk: []string{"kb", "time"}, ddl: "WITH ENGINETYPE = columnstore PRIMARYKEY kb,time", kind: "pk:tag,time"},
 		{name: "b_field", pk: []string{"ka"}, ddl: "WITH ENGINETYPE = columnstore INDEXTYPE bloomfilter INDEXLIST s PRIMARYKEY ka", kind: "bloomfilter:string-field+pk:tag"},
-		{name: "b_tag_w", pk: []string{"kt"}, ddl: "WITH ENGINETYPE = columnstore INDEXTYPE bloomfilter INDEXLIST kb,w PRIMARYKEY kt", kind: "bloomfilter:tag,string-field+pk:bool"},
+		{name: "b_tag", pk: []string{"ka"}, ddl: "WITH ENGINETYPE = columnstore INDEXTYPE bloomfilter INDEXLIST kb PRIMARYKEY ka", kind: "bloomfilter:tag+pk:tag"},
+		{name: "b_phrase", pk: []string{"kt"}, ddl: "WITH ENGINETYPE = columnstore INDEXTYPE bloomfilter INDEXLIST w PRIMARYKEY kt", kind: "bloomfilter:multi-token-string-field+pk:bool"},
 	}
 }
 
@@ -62,13 +63,20 @@ func bbTable(r *rand.Rand, n int) Table {
 	kfs := []float64{-2.5, 0, 0.5, 1, 3}
 	for i := 0; i < n; i++ {
 		row := Row{V: make([]Val, len(t.Cols)), T: int64(i)}
-		row.V[0].S = pick(r, kas)
-		row.V[1].S = pick(r, kbs)
+		ai := r.IntN(len(kas))
+		row.V[0].S = kas[ai]
+		// kb, s and w are correlated with ka and kt, so that a bloom filter of one primary-key
+		// group (one segment) lacks tokens that other groups have
+		row.V[1].S = kbs[(ai+r.IntN(2))%len(kbs)]
 		row.V[2].I = pick(r, kis)
 		row.V[3].F = pick(r, kfs)
 		row.V[4].B = r.IntN(2) == 0
-		row.V[5].S = fmt.Sprintf("s%d", r.IntN(30))
-		row.V[6].S = pick(r, phraseDomain)
+		row.V[5].S = fmt.Sprintf("s%d", ai*5+r.IntN(5))
+		if row.V[4].B {
+			row.V[6].S = pick(r, phraseDomain[:4])
+		} else {
+			row.V[6].S = pick(r, phraseDomain[4:])
+		}
 		row.V[7].I = int64(r.IntN(10))
 		t.Rows = append(t.Rows, row)
 	}
@@ -173,8 +181,16 @@ func bbGenQueries(r *rand.Rand, t *Table, n int) []bbQuery {
 		bbQuery{cond: mk("ki", "<", Lit{Kind: tFloat, F: -0.5}), mode: "mixedlit"},
 		bbQuery{cond: &Node{Op: "AND", L: mk("ki", "=", Lit{Kind: tInt, I: 0}), R: mk("kf", "=", Lit{Kind: tInt, I: 3})}, mode: "mixedlit"},
 		bbQuery{cond: mk("kb", "MATCHPHRASE", Lit{Kind: tString, S: "b"}), mode: "matchphrase"},
+		bbQuery{cond: mk("kb", "MATCHPHRASE", Lit{Kind: tString, S: "a"}), mode: "matchphrase"},
 		bbQuery{cond: mk("w", "MATCHPHRASE", Lit{Kind: tString, S: "a"}), mode: "matchphrase"},
+		bbQuery{cond: mk("w", "MATCHPHRASE", Lit{Kind: tString, S: "ab"}), mode: "matchphrase"},
+		bbQuery{cond: mk("w", "MATCHPHRASE", Lit{Kind: tString, S: "b c"}), mode: "matchphrase"},
+		bbQuery{cond: &Node{Op: "OR", L: mk("w", "MATCHPHRASE", Lit{Kind: tString, S: "c"}), R: mk("v", "=", Lit{Kind: tInt, I: 3})}, mode: "matchphrase"},
 		bbQuery{cond: mk("s", "=", Lit{Kind: tString, S: "s7"}), mode: "plain"},
+		bbQuery{cond: mk("s", "MATCHPHRASE", Lit{Kind: tString, S: "s7"}), mode: "matchphrase"},
+		bbQuery{cond: mk("s", "MATCHPHRASE", Lit{Kind: tString, S: "s21"}), mode: "matchphrase"},
+		bbQuery{cond: &Node{Op: "AND", L: mk("s", "MATCHPHRASE", Lit{Kind: tString, S: "s13"}), R: mk("v", ">", Lit{Kind: tInt, I: 2})}, mode: "matchphrase"},
+		bbQuery{cond: &Node{Op: "OR", L: mk("s", "MATCHPHRASE", Lit{Kind: tString, S: "s3"}), R: mk("s", "MATCHPHRASE", Lit{Kind: tString, S: "s28"})}, mode: "matchphrase"},
 		bbQuery{cond: &Node{Op: "AND", L: mk("ka", "LIKE", Lit{Kind: tString, S: "a%"}), R: mk("ki", "=", Lit{Kind: tInt, I: 1})}, mode: "like"},
 		bbQuery{cond: &Node{Op: "AND", L: &Node{Op: "AND", L: mk("kf", ">", Lit{Kind: tFloat, F: 0}), R: mk("ki", ">", Lit{Kind: tInt, I: 0})}, R: mk("ka", ">", Lit{Kind: tString, S: "a"})}, mode: "plain"},
 	)
@@ -183,9 +199,9 @@ func bbGenQueries(r *rand.Rand, t *Table, n int) []bbQuery {
 		switch x := r.IntN(20); {
 		case x < 3:
 			mode = "mixedlit"
-		case x < 5:
+		case x < 7:
 			mode = "matchphrase"
-		case x == 5:
+		case x == 7:
 			mode = "like"
 		}
 		q := bbQuery{cond: genCond(r, t, mode, 1+r.IntN(3)), mode: mode}
@@ -388,7 +404,25 @@ func bbServer(c *vf.Ctx, bin string, w int) {
 					c.Count("NON-GATING:black-box/full-scan-twin-disagrees-with-harness-model", 1)
 					if c.DistinctCount("black-box/twin-vs-model-sample") < 4 {
 						c.Distinct("black-box/twin-vs-model-sample", where)
-						c.Sample(map[string]any{"non_gating_twin_vs_model": where, "twin_rows": len(twin), "model_rows": nMatch})
+						twinOnly, modelOnly, exT, exM := 0, 0, "", ""
+						for id := range twin {
+							if id >= 0 && id < int64(n) && !match[id] {
+								twinOnly++
+								if exT == "" {
+									exT = bbRowString(&t, int(id))
+								}
+							}
+						}
+						for i := range match {
+							if match[i] && twin[int64(i)] == 0 {
+								modelOnly++
+								if exM == "" {
+									exM = bbRowString(&t, i)
+								}
+							}
+						}
+						c.Sample(map[string]any{"non_gating_twin_vs_model": where, "twin_rows": len(twin), "model_rows": nMatch,
+							"only_twin": twinOnly, "only_model": modelOnly, "example_only_twin": exT, "example_only_model": exM})
 					}
 				}
 			}
@@ -518,6 +552,14 @@ func bbServer(c *vf.Ctx, bin string, w int) {
 	ask("after-restart", queries[:len(queries)/2])
 	c.Distinct("black-box/phase", "after-flush")
 	c.Distinct("black-box/phase", "after-restart")
+}
+
+func bbRowString(t *Table, i int) string {
+	var desc []string
+	for j, cs := range t.Cols {
+		desc = append(desc, fmt.Sprintf("%s=%v", cs.Name, valString(cs.Type, t.Rows[i].V[j])))
+	}
+	return fmt.Sprintf("id=%d time=%d %s", i, bbTimeBase+t.Rows[i].T, strings.Join(desc, " "))
 }
 
 func valString(ty string, v Val) string {
